@@ -111,6 +111,8 @@ func Open(dir string, opts ...walOpt) (*WAL, error) {
 	// Load or create metaDB
 	persisted, err := w.metaDB.Load(w.dir)
 	if err != nil {
+		// Load may have opened the DB before it failed (e.g. unparsable state).
+		w.metaDB.Close()
 		return nil, err
 	}
 
@@ -118,6 +120,24 @@ func Open(dir string, opts ...walOpt) (*WAL, error) {
 		segments:      &immutable.SortedMap[uint64, segmentState]{},
 		nextSegmentID: persisted.NextSegmentID,
 	}
+
+	// From here on the meta DB is open (BoltDB holds a file lock) and we open
+	// segment files as we go. If Open fails, release them: otherwise the next
+	// Open of this directory in the same process blocks forever on the lock.
+	opened := false
+	defer func() {
+		if opened {
+			return
+		}
+		it := newState.segments.Iterator()
+		for !it.Done() {
+			_, seg, _ := it.Next()
+			if seg.r != nil {
+				seg.r.Close()
+			}
+		}
+		w.metaDB.Close()
+	}()
 
 	// Get the set of all persisted segments so we can prune it down to just the
 	// unused ones as we go.
@@ -252,6 +272,7 @@ func Open(dir string, opts ...walOpt) (*WAL, error) {
 	// Start the rotation routine
 	go w.runRotate()
 
+	opened = true
 	return w, nil
 }
 
